@@ -1,0 +1,61 @@
+//! Verification hooks (cargo feature `verif-hooks`, off by default).
+//!
+//! The only hook in the library is an optional iteration budget ("fuel") for
+//! fixed-point iteration, so that an exhaustive checker can bound the
+//! evaluation of a fixed point deterministically instead of by wall clock.
+//! With the feature disabled this module is not compiled.
+
+use std::cell::Cell;
+
+/// Marker contained in the panic message when the budget runs out.
+pub const FUEL_EXHAUSTED_MARKER: &str = "rsbdd-verif: fixed-point fuel exhausted";
+
+/// Environment variable read (once per thread) as the initial budget.
+pub const FUEL_ENV: &str = "RSBDD_VERIF_FP_FUEL";
+
+thread_local! {
+    static FP_FUEL: Cell<Option<u64>> = const { Cell::new(None) };
+    static FP_FUEL_INIT: Cell<bool> = const { Cell::new(false) };
+    static FP_TICKS: Cell<u64> = const { Cell::new(0) };
+}
+
+fn init_from_env() {
+    if !FP_FUEL_INIT.with(Cell::get) {
+        FP_FUEL_INIT.with(|i| i.set(true));
+        if let Some(n) = std::env::var(FUEL_ENV).ok().and_then(|v| v.parse::<u64>().ok()) {
+            FP_FUEL.with(|f| f.set(Some(n)));
+        }
+    }
+}
+
+/// Set (or clear, with `None`) the remaining number of fixed-point iterations
+/// this thread may perform before `fp_tick` panics.
+pub fn set_fp_fuel(fuel: Option<u64>) {
+    FP_FUEL_INIT.with(|i| i.set(true));
+    FP_FUEL.with(|f| f.set(fuel));
+}
+
+/// Remaining budget, if any.
+pub fn fp_fuel() -> Option<u64> {
+    init_from_env();
+    FP_FUEL.with(Cell::get)
+}
+
+/// Total number of fixed-point iterations performed by this thread.
+pub fn fp_ticks() -> u64 {
+    FP_TICKS.with(Cell::get)
+}
+
+/// Called once per iteration of `BDDEnv::fp`.
+pub fn fp_tick() {
+    init_from_env();
+    FP_TICKS.with(|t| t.set(t.get().wrapping_add(1)));
+    FP_FUEL.with(|f| {
+        if let Some(n) = f.get() {
+            if n == 0 {
+                panic!("{}", FUEL_EXHAUSTED_MARKER);
+            }
+            f.set(Some(n - 1));
+        }
+    });
+}
